@@ -165,3 +165,77 @@ if __name__ == "__main__":
     p = sys.argv[1] if len(sys.argv) > 1 else \
         "/repo/dclab/external/skimage/_shared/geometry.pyx"
     print(decythonize_geometry(open(p).read())[1])
+
+
+# --------------------------------------------------------------------------
+# dclab/external/skimage/_pnpoly.pyx (the vectorised wrapper)
+# --------------------------------------------------------------------------
+def decythonize_pnpoly(text):
+    """Mechanical rules for _pnpoly.pyx (fail closed on anything else):
+      cimport lines, cnp.import_array()          -> dropped
+      cdef double[:] a, b, ...                   -> dropped (numpy arrays stay numpy arrays)
+      cdef Py_ssize_t n, m / cdef Py_ssize_t V = e -> dropped / V = e
+      cdef cnp.ndarray[...] out = \\ <expr>       -> out = <expr>
+      with nogil:                                -> if True:
+      &name[0]                                   -> name      (pointer to the first element)
+      <unsigned char*>out.data                   -> out
+    """
+    # join backslash continuations
+    text = re.sub(r"\\\n\s*", " ", text)
+    out = []
+    for ln in text.split("\n"):
+        s = ln.strip()
+        indent = ln[:len(ln) - len(ln.lstrip())]
+        if re.match(r"^(cimport\b|from\s+\S+\s+cimport\b)", s) or s == "cnp.import_array()":
+            continue
+        if re.match(r"^cdef double\[:\] \w+(, \w+)*$", s):
+            out.append(indent + "pass")
+            continue
+        m = re.match(r"^cdef Py_ssize_t (\w+(, \w+)*)$", s)
+        if m:
+            out.append(indent + "pass")
+            continue
+        m = re.match(r"^cdef Py_ssize_t (\w+) = (.*)$", s)
+        if m:
+            out.append("%s%s = %s" % (indent, m.group(1), m.group(2)))
+            continue
+        m = re.match(r"^cdef cnp\.ndarray\[[^\]]*\] (\w+) = (.*)$", s)
+        if m:
+            out.append("%s%s = %s" % (indent, m.group(1), m.group(2)))
+            continue
+        if s == "with nogil:":
+            out.append(indent + "if True:")
+            continue
+        ln2 = re.sub(r"&(\w+)\[0\]", r"\1", ln)
+        ln2 = re.sub(r"<unsigned char\s*\*>\s*(\w+)\.data", r"\1", ln2)
+        if not ln2.strip().startswith("#") and '"""' not in ln2 and \
+                (re.search(r"\b(cdef|cpdef|ctypedef|cimport|nogil)\b", ln2)
+                 or re.search(r"<\s*\w[\w\s]*\*\s*>|&\w", ln2)):
+            raise DecythonizeError("unsupported Cython construct: %r" % s)
+        out.append(ln2)
+    src = "\n".join(out) + "\n"
+    try:
+        tree = ast.parse(src)
+    except SyntaxError as e:
+        raise DecythonizeError("result is not Python: %s" % e)
+    for node in tree.body:
+        if isinstance(node, ast.Import):
+            if [a.name for a in node.names] != ["numpy"]:
+                raise DecythonizeError("unexpected import")
+        elif not isinstance(node, (ast.FunctionDef, ast.Expr)):
+            raise DecythonizeError("unexpected top-level statement %s" % type(node).__name__)
+    return tree, src
+
+
+def load_pnpoly(path, geometry_ns):
+    """-> namespace with _points_in_poly / _grid_points_in_poly as Python, bound
+    to the de-cythonised geometry functions"""
+    import numpy as np
+    tree, src = decythonize_pnpoly(open(path).read())
+    ns = {"np": np, "point_in_polygon": geometry_ns["point_in_polygon"],
+          "points_in_polygon": geometry_ns["points_in_polygon"]}
+    exec(compile(tree, "<decythonized _pnpoly.pyx>", "exec"), ns)
+    for f in ("_points_in_poly", "_grid_points_in_poly"):
+        if not callable(ns.get(f)):
+            raise DecythonizeError("function %s missing" % f)
+    return ns
